@@ -8,6 +8,7 @@
 //!   replay pytwin <script.json>                         Rust side of the Python/Rust differential twin (C18)
 //!   replay truncate [--seed s]                          bounded stand-in of C07: every byte prefix of written snapshots is rejected
 mod agentrun;
+mod detrun;
 mod envrun;
 mod marketrun;
 mod model;
@@ -1059,6 +1060,19 @@ fn main() {
                 }
                 None => println!("{{\"found\": false}}"),
             }
+        }
+        "simdigest" => {
+            let config: usize = arg(&args, "--config").map_or(0, |s| s.parse().unwrap());
+            let seed: u64 = arg(&args, "--seed").map_or(0, |s| s.parse().unwrap());
+            let progress = arg(&args, "--progress").map_or(false, |s| s == "1");
+            let (d, no, nt) = detrun::digest(config, seed, progress);
+            println!("{} {} {}", d, no, nt);
+        }
+        "determinism" => {
+            let seed: u64 = arg(&args, "--seed").map_or(0, |s| s.parse().unwrap());
+            let (n, bad) = detrun::determinism(seed);
+            println!("{}", serde_json::json!({"simulations_run": n, "bad": bad}));
+            std::process::exit(if bad.is_empty() { 0 } else { 1 });
         }
         "pytwin" => {
             let text = std::fs::read_to_string(&args[2]).expect("script file");
